@@ -600,9 +600,13 @@ class Body:
                             raise ExtractionBreak('numeric_limits form')
                         if toks[c2].t != 'max': raise ExtractionBreak('numeric_limits::min unsupported')
                         if inner[0].t == 'decltype':
-                            e = untok(toks[la + 1:ra]).strip()
-                            e = e[len('decltype'):].strip()
-                            out.append(T('id', 'OP2_UMAX_OF_EXPR' + e))
+                            out.append(T('id', 'OP2_UMAX_OF_EXPR'))
+                            seen = False
+                            for x in toks[la + 1:ra]:
+                                if not seen:
+                                    if x.k == 'id' and x.t == 'decltype': seen = True
+                                    continue
+                                out.append(x)
                         else:
                             cty, _ = map_type(untok(toks[la + 1:ra]), tm)
                             out.append(T('id', 'OP2_MAX_' + cty.replace(' ', '_')))
@@ -1367,6 +1371,10 @@ def extract_function(fn, unit, repo, filecache, contracts):
     text = rewrite_views(text, views)
     if '@@' in text:
         raise ExtractionBreak('unresolved marker in %s' % fn['cname'])
+    if cret != 'void':
+        # R16: braced return of an aggregate  ->  C compound literal of the declared return type
+        text, nbr = re.subn(r'\breturn\s*\{', 'return (%s){' % cret, text)
+        if nbr: body.fire('R16ret', nbr)
     # signature
     cparams = []
     if cls and not static:
